@@ -28,10 +28,10 @@ PROP = dict(
     engines=[
         dict(name="rawvec", classify=classify,
              quick=dict(cases=2400, shards=4, profiles=["debug"], extra=["--faults"]),
-             thorough=dict(cases=64000, shards=16, profiles=["debug"], extra=["--faults"])),
+             thorough=dict(cases=20000, shards=16, profiles=["debug"], extra=["--faults"])),
         dict(name="rawvec", classify=classify,
              quick=dict(cases=2000, shards=4, profiles=["debug"], extra=["--no-faults"]),
-             thorough=dict(cases=80000, shards=16, profiles=["debug"], extra=["--no-faults"])),
+             thorough=dict(cases=24000, shards=16, profiles=["debug"], extra=["--no-faults"])),
     ],
     model_targets=["Extract/Extract.vo"],
     rule="fault stream on the REAL change directory: a generated commit history (retention 1..10), then ONE fault on the "
